@@ -158,7 +158,8 @@ def mutate(gc, a, rng):
     return gc.Action(a.action_type, ps)
 
 
-TRICKY = ["EOF", "xEOFy", "GEOFF", "EOFEOF", 'a"b', "a\\b", "}{", "  padded  ", "\u00e9\u4e2d", "tab\tnew\nline", "ActionType.QuitGame", "null", "{\"ip\": 1}", "'", "%s"]
+TRICKY = ["EOF", "xEOFy", "GEOFF", "EOFEOF", 'a"b', "a\\b", "}{", "  padded  ", "\u00e9\u4e2d", "tab\tnew\nline", "ActionType.QuitGame", "null", "{\"ip\": 1}", "'", "%s",
+          "lone\ud83d", "\udc00tail"]      # unpaired surrogates: legal in JSON text (\\ud83d), echoed back in trajectories
 
 
 PICKLE_WORKER = r"""
